@@ -28,7 +28,7 @@ def budget(tier):
 
 
 def strategy(tier):
-    general = gen_spec(**{**tier_opts(tier), **dict(allow_rels=True)})
+    general = gen_spec(**{**tier_opts(tier), **dict(allow_rels=True, allow_rdep=True, allow_nm=True)})
     # one case in four is a relation-heavy design (many small transactions, hub / chain conflict topologies)
     graph = st.sampled_from(["eager", "rr"]).flatmap(lambda sc: gen_conflict_graph_spec(sched=sc))
     return st.integers(0, 3).flatmap(lambda k: graph if k == 3 else general)
